@@ -161,8 +161,18 @@ func checkC17(cfg *core.Config) int {
 		root := filepath.Join(scratch, fmt.Sprintf("m%03d", i), "src")
 		fam := nameFamilies[rng.Intn(len(nameFamilies))]
 		var dirs []string
-		shape := i % 6
+		shape := i % 7
 		switch shape {
+		case 6: // a nested package listed before a sibling whose name extends the name of its parent
+			parent, longer := fam[0], fam[0]+"ping"
+			for _, x := range fam {
+				for _, y := range fam {
+					if x != y && strings.HasPrefix(y, x) {
+						parent, longer = x, y
+					}
+				}
+			}
+			dirs = []string{parent + "/items", longer}
 		case 0: // siblings sharing a name prefix
 			dirs = append(dirs, fam...)
 		case 1: // nested packages
